@@ -78,7 +78,7 @@ Section Light.
   Hypothesis Ei : insts s1 = insts s.
   Hypothesis Er : recs s1 = recs s.
   Hypothesis Ero : routine s1 = routine s.
-  Hypothesis Ek : kctx s1 = kctx s.
+  Hypothesis Ed : dead s1 = dead s.
   Hypothesis Eb : bo s1 = bo s.
   Hypothesis Ecb : cblog s1 = cblog s.
   Hypothesis Encb : ncb s1 = ncb s.
@@ -86,18 +86,19 @@ Section Light.
   Hypothesis Esfn : sfn s1 = sfn s.
   Hypothesis Esval : sval s1 = sval s.
   Hypothesis X2 : forall i a b, In (i, a, b) (x_pend m e p) -> In (i, a, b) (m_pend m).
-  Hypothesis X3 : x_ctx m e = m_ctx m.
+  Hypothesis C_ctx : x_ctx m e p = N.of_nat (kctx s1).
+  Hypothesis XD : match e with [18; c] => c :: m_dead m | _ => m_dead m end = m_dead m.
   Hypothesis X4 : x_st m e p = m_st m.
   Hypothesis X5 : x_sfn m e = m_sfn m.
   Hypothesis X6 : x_hasr m e p = (if m_sv m then nz (m_sfn m) && nz (m_st m) else m_hasr m).
   Hypothesis X7 : x_epoch e p = false.
-  Hypothesis X8 : x_clear_ctx e = false.
+  Hypothesis X8 : x_clear_ctx m e = false.
   Hypothesis X9 : x_out m e p = x_out' m p.
   Hypothesis X10 : x_nodelta p = true -> x_f14e m e p = [].
   Hypothesis CH : (ch = hch h /\ x_chans m e = m_chans m) \/ (ch = (hch h ++ [None])%list /\ x_chans m e = (m_chans m ++ [m_ninst m])%list).
   Hypothesis CK' : x_clock m e = clock s1.
   Hypothesis WC : x_wcanc m e = map wcanc (waiters s1).
-  Hypothesis PEND : forall d, pending_ok s d -> pending_ok s1 d.
+  Hypothesis PEND : forall d, m_pending m = Some d -> x_clears m e p = false -> pending_ok s1 d.
   Hypothesis NW : m_exitg m = false -> x_f14w m e p = [].
 
   Lemma light_step_ok_gen : step_ok m h e s1 ch rets ex.
@@ -106,17 +107,16 @@ Section Light.
     assert (Hn : x_n p = length (insts s)) by (rewrite x_n_obs, (q_ilen _ _ (quiet_settle s1)), Ei; reflexivity).
     apply nb_step_ok; try assumption.
     - intros i a b Hin. apply (R_pend _ _ HR i a b). now apply X2.
-    - now rewrite X3, Ek, (R_ctx _ _ HR).
     - now rewrite X4, Esval, (R_st _ _ HR).
     - now rewrite X5, Esfn, (R_sfn _ _ HR).
     - rewrite X6, (hasr_same _ _ HR HA). unfold has_routine. now rewrite Ero.
     - left. split; [exact K | exact X7].
     - rewrite X8. discriminate.
+    - rewrite XD, Ed. apply (R_dead _ _ HR).
     - intros i x Hx. exists x. rewrite Ei. auto.
     - intros i x1 Hx1. rewrite X9. unfold x_out'. rewrite nth_pad. rewrite Ei in Hx1. apply (R_out _ _ HR i x1 Hx1).
     - rewrite X9. unfold x_out'. rewrite Hn, Ei. apply out_pad_length. rewrite (R_outl _ _ HR). lia.
     - destruct CH as [C | [C1 C2]]; [now left|]. right. exists None. split; [exact C1|]. split; [exact C2|]. intros j Hj. discriminate.
-    - intros d Hd _. apply PEND. apply (R_pending _ _ HR d Hd).
     - intros _. split; [exact Er|]. intros i x1 Hx1. rewrite Ei in Hx1. eauto.
     - intros _ _ _. now rewrite Ei.
     - intros _ _ _ _ _. now rewrite Ei.
@@ -126,11 +126,12 @@ End Light.
 Lemma light_step_ok m h e s1 ch rets ex :
   R m h -> AllInv (hs h) -> AllInv (settle s1) ->
   insts s1 = insts (hs h) -> recs s1 = recs (hs h) -> routine s1 = routine (hs h) -> kctx s1 = kctx (hs h) -> bo s1 = bo (hs h) ->
-  cblog s1 = cblog (hs h) -> ncb s1 = ncb (hs h) -> sv s1 = sv (hs h) -> sfn s1 = sfn (hs h) -> sval s1 = sval (hs h) ->
-  x_is_book e = false -> x_pend m e (pobs_of rets (hmid h s1 ch ex)) = m_pend m -> x_ctx m e = m_ctx m ->
+  cblog s1 = cblog (hs h) -> ncb s1 = ncb (hs h) -> sv s1 = sv (hs h) -> sfn s1 = sfn (hs h) -> sval s1 = sval (hs h) -> dead s1 = dead (hs h) ->
+  x_is_book e = false -> x_pend m e (pobs_of rets (hmid h s1 ch ex)) = m_pend m -> x_ctx m e (pobs_of rets (hmid h s1 ch ex)) = m_ctx m ->
+  match e with [18; c] => c :: m_dead m | _ => m_dead m end = m_dead m ->
   x_st m e (pobs_of rets (hmid h s1 ch ex)) = m_st m -> x_sfn m e = m_sfn m ->
   x_hasr m e (pobs_of rets (hmid h s1 ch ex)) = (if m_sv m then nz (m_sfn m) && nz (m_st m) else m_hasr m) ->
-  x_epoch e (pobs_of rets (hmid h s1 ch ex)) = false -> x_clear_ctx e = false ->
+  x_epoch e (pobs_of rets (hmid h s1 ch ex)) = false -> x_clear_ctx m e = false ->
   x_out m e (pobs_of rets (hmid h s1 ch ex)) = x_out' m (pobs_of rets (hmid h s1 ch ex)) ->
   x_f14e m e (pobs_of rets (hmid h s1 ch ex)) = fails 14 5 (x_nodelta (pobs_of rets (hmid h s1 ch ex))) ->
   (ch = hch h /\ x_chans m e = m_chans m) \/ (ch = (hch h ++ [None])%list /\ x_chans m e = (m_chans m ++ [m_ninst m])%list) ->
@@ -139,10 +140,12 @@ Lemma light_step_ok m h e s1 ch rets ex :
   (m_exitg m = false -> x_f14w m e (pobs_of rets (hmid h s1 ch ex)) = []) ->
   step_ok m h e s1 ch rets ex.
 Proof.
-  intros HR HA HA' E1 E2 E3 E4 E5 E6 E7 E8 E9 E10 _ X2 X3 X4 X5 X6 X7 X8 X9 X10 CH CK' WC PEND NW.
+  intros HR HA HA' E1 E2 E3 E4 E5 E6 E7 E8 E9 E10 E11 _ X2 X3 XD X4 X5 X6 X7 X8 X9 X10 CH CK' WC PEND NW.
   apply light_step_ok_gen; try assumption.
   - rewrite X2. auto.
+  - now rewrite X3, E4, (R_ctx _ _ HR).
   - intros Hn. rewrite X10, Hn. reflexivity.
+  - intros d Hd _. apply PEND. apply (R_pending _ _ HR d Hd).
 Qed.
 
 Lemma map_set_nth {A B} (f : A -> B) (l : list A) k v : map f (set_nth l k v) = set_nth (map f l) k (f v).
@@ -153,6 +156,13 @@ Proof. revert k. induction l as [|x l IH]; intros [|k] H; cbn in *; try discrimi
 
 Lemma map_set_nth_keep {A B} (f : A -> B) (l : list A) k w v : nth_error l k = Some w -> f v = f w -> map f (set_nth l k v) = map f l.
 Proof. intros H E. rewrite map_set_nth, E. apply set_nth_same. now rewrite nth_error_map, H. Qed.
+
+Lemma clears_false m e p : x_clears m e p = false ->
+  x_spawned m p = false /\ x_epoch e p = false /\ x_is_restart e = false /\ x_is_ctx_restart e = false /\
+  match e with [1; c; _] => N.eqb c 0 | _ => false end = false /\ x_forgets m e p = false.
+Proof.
+  unfold x_clears. intros H. repeat (apply orb_false_iff in H; destruct H as [H ?]). auto 10.
+Qed.
 
 (* ---- GetState ---- *)
 Lemma ev_getstate m h : R m h -> AllInv (hs h) -> AllInv (settle (hs h)) -> step_ok m h [7] (hs h) (hch h) [sval (hs h)] (hexit h).
@@ -230,37 +240,55 @@ Definition wres (s : st) (w : waiter) : option outcome :=
   | None => if wrinr w then Some ONil else None
   end.
 
-Lemma wait_section_exact s a w : nth_error (waiters s) a = Some w -> wpcv w = WGate ->
-  exists w1, wait_section s a = setw (set_b s (fst (getch (b s)))) a w1 /\ wcanc w1 = wcanc w /\
+Lemma wait_sect_at_exact s a w :
+  exists w1, wait_sect_at s a w = setw (set_b s (fst (getch (b s)))) a w1 /\ wcanc w1 = wcanc w /\
              wpcv w1 = match wres s w with
                        | Some o => WRet o
                        | None => if wcanc w then WRet OCanc else WBlocked (snd (getch (b s)))
                        end.
 Proof.
-  intros Hw Hp. unfold wait_section. rewrite Hw, Hp. fold (wres s w). destruct (getch (b s)) as [b' c]. cbn [fst snd].
+  unfold wait_sect_at. fold (wres s w). destruct (getch (b s)) as [b' c]. cbn [fst snd].
   destruct (wres s w) as [o|]; [eexists; split; [reflexivity|split; reflexivity]|].
   destruct (wcanc w) eqn:Ec; eexists; (split; [reflexivity|split; [|reflexivity]]); cbn [wcanc]; congruence.
 Qed.
+
+Lemma norm_frame s :
+  insts (norm s) = insts s /\ recs (norm s) = recs s /\ routine (norm s) = routine s /\ dead (norm s) = dead s /\ bo (norm s) = bo s /\
+  cblog (norm s) = cblog s /\ ncb (norm s) = ncb s /\ sv (norm s) = sv s /\ sfn (norm s) = sfn s /\ sval (norm s) = sval s /\
+  clock (norm s) = clock s /\ waiters (norm s) = waiters s /\ timers (norm s) = timers s /\
+  kctx (norm s) = (if root_dead s (kctx s) then 0%nat else kctx s).
+Proof. unfold norm. destruct (root_dead s (kctx s)); repeat split; reflexivity. Qed.
 
 Lemma ev_wsect m h a w : R m h -> AllInv (hs h) -> AllInv (settle (wait_section (hs h) (n2n a))) ->
   nth_error (waiters (hs h)) (n2n a) = Some w -> wpcv w = WGate ->
   step_ok m h [14; a] (wait_section (hs h) (n2n a)) (hch h) [] (hexit h).
 Proof.
   intros HR HA HA' Hw Hp.
-  destruct (wait_section_exact (hs h) (n2n a) w Hw Hp) as (w1 & E & Ec & Ep). rewrite E in *.
-  apply light_step_ok; try assumption; try reflexivity.
+  assert (E0 : wait_section (hs h) (n2n a) = wait_sect_at (norm (hs h)) (n2n a) w) by (unfold wait_section; now rewrite Hw, Hp).
+  destruct (norm_frame (hs h)) as (N1 & N2 & N3 & N4 & N5 & N6 & N7 & N8 & N9 & N10 & N11 & N12 & N13 & N14).
+  destruct (wait_sect_at_exact (norm (hs h)) (n2n a) w) as (w1 & E & Ec & Ep). rewrite E0, E in *.
+  set (S0 := norm (hs h)) in *.
+  assert (Hfor : x_forgets m [14; a] (pobs_of [] (hmid h (setw (set_b S0 (fst (getch (b S0)))) (n2n a) w1) (hch h) (hexit h))) = root_dead (hs h) (kctx (hs h))).
+  { unfold x_forgets. rewrite orb_true_r. cbn [andb]. apply (dead_rel _ _ HR). }
+  assert (Hc0 : x_ctx0 m [14; a] (pobs_of [] (hmid h (setw (set_b S0 (fst (getch (b S0)))) (n2n a) w1) (hch h) (hexit h))) = N.of_nat (kctx S0)).
+  { unfold x_ctx0. rewrite Hfor, N14, (R_ctx _ _ HR). destruct (root_dead (hs h) (kctx (hs h))); reflexivity. }
+  apply light_step_ok_gen; try assumption; try reflexivity.
+  - intros j a0 b0 Hin. exact Hin.
+  - intros Hn. unfold x_f14e. rewrite Hn. reflexivity.
   - left. split; reflexivity.
-  - apply (R_clock _ _ HR).
-  - unfold x_wcanc, setw. cbn [waiters set_waiters set_b]. rewrite (map_set_nth_keep wcanc _ _ w w1 Hw Ec). apply (R_wcanc _ _ HR).
-  - auto.
+  - change (x_clock m [14; a] = clock S0). rewrite N11. apply (R_clock _ _ HR).
+  - unfold x_wcanc, setw. cbn [waiters set_waiters set_b]. fold S0. rewrite N12, (map_set_nth_keep wcanc _ _ w w1 Hw Ec). apply (R_wcanc _ _ HR).
+  - intros d Hd Hcl. destruct (clears_false _ _ _ Hcl) as (_ & _ & _ & _ & _ & Hf). rewrite Hfor in Hf.
+    assert (ES : S0 = hs h) by (unfold S0, norm; now rewrite Hf).
+    apply (pending_ok_same (hs h)); try (rewrite ES; reflexivity). apply (R_pending _ _ HR d Hd).
   - (* clause 14/4 *)
     intros _. unfold x_f14w.
-    set (s1 := setw (set_b (hs h) (fst (getch (b (hs h))))) (n2n a) w1) in *.
+    set (s1 := setw (set_b S0 (fst (getch (b S0)))) (n2n a) w1) in *.
     change (po_waits (pobs_of [] (hmid h s1 (hch h) (hexit h)))) with (map wcode (waiters (settle s1))).
     pose proof (quiet_settle s1) as Q.
     assert (Hal : (n2n a < length (waiters (hs h)))%nat) by (eapply nth_error_nth_len; eauto).
     assert (H1 : nth_error (waiters s1) (n2n a) = Some w1).
-    { unfold s1, setw. cbn [waiters set_waiters set_b]. now apply nth_error_set_nth_same. }
+    { unfold s1, setw. cbn [waiters set_waiters set_b]. rewrite N12. now apply nth_error_set_nth_same. }
     rewrite nth_error_map.
     destruct (nth_error (waiters (settle s1)) (n2n a)) as [w'|] eqn:E'.
     2:{ exfalso. apply nth_error_None in E'. rewrite (q_wlen _ _ Q) in E'. apply nth_error_nth_len in H1. lia. }
@@ -271,15 +299,14 @@ Proof.
       destruct Hst as [Hst | (c & _ & Hst)]; [congruence | discriminate]. }
     destruct Hret as (o & Ew' & Ew1). unfold wcode. rewrite Ew'.
     replace (3 + enc_out o - 3) with (enc_out o) by lia. cbv zeta.
-    rewrite (R_ctx _ _ HR), (R_hasr _ _ HR), (R_curexit _ _ HR), (R_wcanc _ _ HR), nz_of_nat.
-    rewrite (map_nth wcanc (waiters (hs h)) waiter0 (n2n a)) || idtac.
+    rewrite Hc0, (R_hasr _ _ HR), (R_curexit _ _ HR), (R_wcanc _ _ HR), nz_of_nat.
     assert (Hwc : nth (n2n a) (map wcanc (waiters (hs h))) false = wcanc w).
     { rewrite <- (nth_error_nth (map wcanc (waiters (hs h))) (n2n a) false (x := wcanc w)); [reflexivity|]. now rewrite nth_error_map, Hw. }
-    rewrite Hwc. rewrite Ew1 in Ep. unfold wres, has_routine, curexit_of in *.
+    rewrite Hwc. rewrite Ew1 in Ep. unfold wres, has_routine, curexit_of in *. rewrite N3 in Ep. unfold getr in *. rewrite N2 in Ep.
     destruct (routine (hs h)) as [r|].
-    + destruct (Nat.eqb (kctx (hs h)) 0); cbn [negb andb].
+    + destruct (Nat.eqb (kctx S0) 0); cbn [negb andb].
       * destruct (wrinr w); [inversion Ep; reflexivity|]. destruct (wcanc w); [inversion Ep; reflexivity | discriminate].
-      * cbv zeta in Ep. destruct (rexited (getr (hs h) r) || rsucc (getr (hs h) r)).
+      * cbv zeta in Ep. destruct (rexited (nth r (recs (hs h)) rec0) || rsucc (nth r (recs (hs h)) rec0)).
         -- inversion Ep. now rewrite N.eqb_refl.
         -- destruct (wcanc w); [inversion Ep; reflexivity | discriminate].
     + rewrite andb_false_r. destruct (wrinr w); [inversion Ep; reflexivity|]. destruct (wcanc w); [inversion Ep; reflexivity | discriminate].
@@ -298,12 +325,13 @@ Section Inst.
   Hypothesis Hx : nth_error (insts s) i = Some x.
   Hypothesis Hrec : irec x' = irec x.
   Hypothesis X2 : forall j a b, In (j, a, b) (x_pend m e p) -> b = true -> a = true.
-  Hypothesis X3 : x_ctx m e = m_ctx m.
+  Hypothesis X3 : x_ctx m e p = m_ctx m.
+  Hypothesis XD : match e with [18; c] => c :: m_dead m | _ => m_dead m end = m_dead m.
   Hypothesis X4 : x_st m e p = m_st m.
   Hypothesis X5 : x_sfn m e = m_sfn m.
   Hypothesis X6 : x_hasr m e p = (if m_sv m then nz (m_sfn m) && nz (m_st m) else m_hasr m).
   Hypothesis X7 : x_epoch e p = false.
-  Hypothesis X8 : x_clear_ctx e = false.
+  Hypothesis X8 : x_clear_ctx m e = false.
   Hypothesis X9 : x_chans m e = m_chans m.
   Hypothesis X10 : x_nodelta p = true -> x_f14e m e p = [].
   Hypothesis X11 : x_clock m e = m_clock m.
@@ -330,6 +358,7 @@ Section Inst.
     - rewrite X6. apply (hasr_same _ _ HR HA).
     - left. split; [exact K | exact X7].
     - rewrite X8. discriminate.
+    - rewrite XD. apply (R_dead _ _ HR).
     - intros k y Hy. rewrite insts_seti. destruct (Nat.eq_dec k i) as [->|Hne].
       + rewrite nth_error_set_nth_same by exact Hil. exists x'. split; [reflexivity|]. congruence.
       + rewrite nth_error_set_nth_other by exact Hne. eauto.
@@ -348,15 +377,16 @@ End Inst.
 Lemma inst_step_ok m h e i x x' :
   R m h -> AllInv (hs h) -> AllInv (settle (seti (hs h) i x')) -> nth_error (insts (hs h)) i = Some x -> irec x' = irec x ->
   let p := pobs_of [] (hmid h (seti (hs h) i x') (hch h) (hexit h)) in
-  x_is_book e = false -> x_pend m e p = m_pend m -> x_ctx m e = m_ctx m -> x_st m e p = m_st m -> x_sfn m e = m_sfn m ->
-  x_hasr m e p = (if m_sv m then nz (m_sfn m) && nz (m_st m) else m_hasr m) -> x_epoch e p = false -> x_clear_ctx e = false ->
+  x_is_book e = false -> x_pend m e p = m_pend m -> x_ctx m e p = m_ctx m ->
+  match e with [18; c] => c :: m_dead m | _ => m_dead m end = m_dead m -> x_st m e p = m_st m -> x_sfn m e = m_sfn m ->
+  x_hasr m e p = (if m_sv m then nz (m_sfn m) && nz (m_st m) else m_hasr m) -> x_epoch e p = false -> x_clear_ctx m e = false ->
   x_chans m e = m_chans m -> x_f14e m e p = fails 14 5 (x_nodelta p) -> x_clock m e = m_clock m -> x_wcanc m e = m_wcanc m ->
   x_api e = false -> x_f14w m e p = [] ->
   out_ok (ipcv x') (nth i (x_out m e p) 1) -> (forall k, k <> i -> nth k (x_out m e p) 1 = nth k (m_out m) 1) ->
   length (x_out m e p) = length (insts (hs h)) ->
   step_ok m h e (seti (hs h) i x') (hch h) [] (hexit h).
 Proof.
-  intros HR HA HA' Hx Hrec p _ X2 X3 X4 X5 X6 X7 X8 X9 X10 X11 X12 X13 X14 O1 O2 O3.
+  intros HR HA HA' Hx Hrec p _ X2 X3 XD X4 X5 X6 X7 X8 X9 X10 X11 X12 X13 X14 O1 O2 O3.
   apply (inst_step_ok_gen m h e i x x' (hexit h)); try assumption.
   - intros j a b Hin. fold p in Hin. rewrite X2 in Hin. apply (R_pend _ _ HR j a b Hin).
   - intros Hn. fold p. fold p in Hn. rewrite X10, Hn. reflexivity.
@@ -429,8 +459,9 @@ Section Api.
   Hypothesis X13 : x_api e = true.
   Hypothesis X14 : x_f14w m e p = [].
   Hypothesis X15 : x_out m e p = x_out' m p.
-  Hypothesis C_ctx : x_ctx m e = N.of_nat (kctx s1).
-  Hypothesis CLR : x_clear_ctx e = true -> kctx s1 = 0%nat.
+  Hypothesis XD : match e with [18; c] => c :: m_dead m | _ => m_dead m end = m_dead m.
+  Hypothesis C_ctx : x_ctx m e p = N.of_nat (kctx s1).
+  Hypothesis CLR : x_clear_ctx m e = true -> forall r, routine s1 = Some r -> rctx (getr s1 r) = None.
   Hypothesis PEND : forall d, m_pending m = Some d -> x_clears m e p = false -> pending_ok s1 d.
   Hypothesis NS1 : rsucc_cur s = true -> x_is_restart e = false -> length (insts s1) = length (insts s).
   Hypothesis NS2 : rerr_cur s = true -> x_is_restart e = false -> x_is_ctx_restart e = false -> x_is_timer e = false ->
@@ -438,7 +469,7 @@ Section Api.
 
   Lemma api_step_ok : step_ok m h e s1 (hch h) rets (hexit h).
   Proof.
-    destruct FR as ((A1 & A2 & A3 & A4 & A5 & A6 & A7 & A8 & A9) & _ & IK & IL).
+    destruct FR as ((A1 & A2 & A3 & A4 & A5 & A6 & A7 & A8 & A9 & A10) & _ & IK & IL).
     assert (Hlen : length (insts s1) = length (insts s) \/ spawnB (length (insts s)) s1) by (destruct CLS as [(L & _) | B]; auto).
     apply nb_step_ok; try assumption; try reflexivity.
     - rewrite X2. apply (R_pend _ _ HR).
@@ -447,6 +478,7 @@ Section Api.
     - rewrite X11, A5. apply (R_clock _ _ HR).
     - rewrite X6, (hasr_same _ _ HR HA). unfold has_routine. now rewrite Ero.
     - destruct CLS as [K | B]; [left; split; [exact K | exact X7] | right; left; exact B].
+    - rewrite XD, A10. apply (R_dead _ _ HR).
     - now apply inst_keep_rec.
     - intros i x1 Hx1. rewrite X15. unfold x_out'. apply (out_api m h s1 _ HR); [now apply inst_keep_pc | now apply new_is_gate | exact Hx1].
     - rewrite X15. unfold x_out'. rewrite x_n_obs, (q_ilen _ _ (quiet_settle s1)). apply out_pad_length. rewrite (R_outl _ _ HR). exact IL.
@@ -463,12 +495,6 @@ End Api.
 Lemma x_spawned_eq m h s1 ch rets ex : R m h ->
   x_spawned m (pobs_of rets (hmid h s1 ch ex)) = Nat.ltb (length (insts (hs h))) (length (insts s1)).
 Proof. intros HR. unfold x_spawned. rewrite x_n_obs, (R_ninst _ _ HR), (q_ilen _ _ (quiet_settle s1)). reflexivity. Qed.
-
-Lemma clears_false m e p : x_clears m e p = false ->
-  x_spawned m p = false /\ x_epoch e p = false /\ x_is_restart e = false /\ x_is_ctx_restart e = false /\ x_clear_ctx e = false.
-Proof.
-  unfold x_clears, x_clear_ctx. intros H. repeat (apply orb_false_iff in H; destruct H as [H ?]). auto.
-Qed.
 
 Lemma In_insert_t ts t l u : In u (insert_t ts t l) -> u = t \/ In u l.
 Proof.
@@ -514,8 +540,10 @@ Proof.
   - destruct (set_context_cls (hs h) (n2n c) (nz r) HW) as [K | [_ B]]; auto.
   - apply routine_set_context.
   - unfold x_ctx. now rewrite kctx_set_context, of_nat_n2n.
-  - unfold x_clear_ctx. intros Hc. apply N.eqb_eq in Hc. subst c. now rewrite kctx_set_context.
-  - intros d Hd Hcl. destruct (clears_false _ _ _ Hcl) as (_ & _ & _ & Hr & Hc). unfold x_is_ctx_restart in Hr. unfold x_clear_ctx in Hc.
+  - unfold x_clear_ctx. intros Hc r0 Hr0. apply andb_true_iff in Hc as [Hc Hk]. apply N.eqb_eq in Hc. subst c.
+    rewrite routine_set_context in Hr0. rewrite (R_ctx _ _ HR), nz_of_nat in Hk. apply negb_true_iff, Nat.eqb_neq in Hk.
+    apply set_context_clear; [exact Hk | exact Hr0|]. unfold InvW in HW. now rewrite Hr0 in HW.
+  - intros d Hd Hcl. destruct (clears_false _ _ _ Hcl) as (_ & _ & _ & Hr & Hc & _). unfold x_is_ctx_restart in Hr.
     rewrite Hr. apply N.eqb_neq in Hc. assert (Hc' : n2n c <> 0%nat) by (intros Hz; apply n2n_zero in Hz; contradiction).
     destruct (R_pending _ _ HR d Hd) as (Hk & r0 & t & x & A & B & C & D).
     destruct (T2' r0 t B) as (_ & Hne & _).
@@ -537,7 +565,9 @@ Proof.
   - apply fr_restart_routine.
   - destruct (restart_routine_cls (hs h) HW) as [K | [_ B]]; auto.
   - apply routine_restart_routine.
-  - unfold x_ctx. rewrite kctx_restart_routine. apply (R_ctx _ _ HR).
+  - change (x_ctx m [3] ?P) with (if x_is_dead m then 0 else m_ctx m). rewrite kctx_restart_routine, (dead_rel _ _ HR).
+    destruct (norm_frame (hs h)) as (_ & _ & _ & _ & _ & _ & _ & _ & _ & _ & _ & _ & _ & N14). rewrite N14, (R_ctx _ _ HR).
+    destruct (root_dead (hs h) (kctx (hs h))); reflexivity.
   - discriminate.
   - intros d _ Hcl. destruct (clears_false _ _ _ Hcl) as (_ & _ & Hr & _). discriminate Hr.
   - intros _ Hr. discriminate Hr.
@@ -586,16 +616,17 @@ Section Epoch.
   (* s0 is s with the stored function / state replaced *)
   Hypothesis E0i : insts s0 = insts s.
   Hypothesis E0w : waiters s0 = waiters s.
-  Hypothesis E0a : sv s0 = sv s /\ ncb s0 = ncb s /\ bo s0 = bo s /\ clock s0 = clock s /\ cblog s0 = cblog s.
+  Hypothesis E0a : sv s0 = sv s /\ ncb s0 = ncb s /\ bo s0 = bo s /\ clock s0 = clock s /\ cblog s0 = cblog s /\ dead s0 = dead s.
   Hypothesis FR : fr s0 s1.
-  Hypothesis CL : kctx s1 = kctx s /\ (routine s1 = None <-> f = 0%nat) /\
+  Hypothesis CL : kctx s1 = kctx (norm s) /\ (routine s1 = None <-> f = 0%nat) /\
                   (spawnB (length (insts s)) s1 \/ freshC (length (insts s)) s1) /\
                   (forall j, w = Some j -> S j = length (insts s)).
   Hypothesis X1 : x_is_book e = false.
   Hypothesis X2 : x_pend m e p = m_pend m.
-  Hypothesis X3 : x_ctx m e = m_ctx m.
+  Hypothesis X3 : x_ctx m e p = x_ctx0 m e p.
+  Hypothesis XD : match e with [18; c] => c :: m_dead m | _ => m_dead m end = m_dead m.
   Hypothesis X7 : x_epoch e p = true.
-  Hypothesis X8 : x_clear_ctx e = false.
+  Hypothesis X8 : x_clear_ctx m e = false.
   Hypothesis X9 : x_chans m e = (m_chans m ++ [m_ninst m])%list.
   Hypothesis X10 : x_f14e m e p = fails 14 5 (x_nodelta p).
   Hypothesis X11 : x_clock m e = m_clock m.
@@ -609,8 +640,8 @@ Section Epoch.
 
   Lemma epoch_step_ok : step_ok m h e s1 (hch h ++ [w]) rets (hexit h).
   Proof.
-    destruct FR as ((A1 & A2 & A3 & A4 & A5 & A6 & A7 & A8 & A9) & _ & IK & IL).
-    destruct E0a as (B1 & B2 & B4 & B5 & B6). destruct CL as (K1 & K2 & K3 & K4).
+    destruct FR as ((A1 & A2 & A3 & A4 & A5 & A6 & A7 & A8 & A9 & A10) & _ & IK & IL).
+    destruct E0a as (B1 & B2 & B4 & B5 & B6 & B7). destruct CL as (K1 & K2 & K3 & K4).
     rewrite E0i in IK, IL.
     assert (Hlen : length (insts s1) = length (insts s) \/ spawnB (length (insts s)) s1) by (destruct K3 as [B | (L & _)]; auto).
     apply nb_step_ok; try assumption; try reflexivity.
@@ -619,10 +650,13 @@ Section Epoch.
     - congruence.
     - congruence.
     - congruence.
-    - now rewrite X3, K1, (R_ctx _ _ HR).
+    - rewrite X3, K1. unfold x_ctx0, x_forgets. rewrite X7. cbn [orb andb]. rewrite (dead_rel _ _ HR), (R_ctx _ _ HR).
+      destruct (norm_frame s) as (_ & _ & _ & _ & _ & _ & _ & _ & _ & _ & _ & _ & _ & N14). rewrite N14.
+      destruct (root_dead s (kctx s)); reflexivity.
     - rewrite X11, A5, B5. apply (R_clock _ _ HR).
     - destruct K3 as [B | C]; [right; left; exact B | right; right; split; [exact C | exact X7]].
     - rewrite X8. discriminate.
+    - rewrite XD, A10, B7. apply (R_dead _ _ HR).
     - now apply inst_keep_rec.
     - intros i x1 Hx1. rewrite X15. unfold x_out'. apply (out_api m h s1 _ HR); [now apply inst_keep_pc | now apply new_is_gate | exact Hx1].
     - rewrite X15. unfold x_out'. rewrite x_n_obs, (q_ilen _ _ (quiet_settle s1)). apply out_pad_length. rewrite (R_outl _ _ HR). exact IL.
@@ -669,15 +703,16 @@ Qed.
 
 (* what setRoutineLocked on a state with the same instances gives *)
 Lemma epoch_facts s s0 F arg : Inv s -> insts s0 = insts s -> lastexit s0 = lastexit s -> routine s0 = routine s -> recs s0 = recs s ->
-  kctx s0 = kctx s ->
+  kctx s0 = kctx s -> dead s0 = dead s ->
   let X := fst (set_routine_locked repaired s0 F arg) in
-  fr s0 X /\ kctx X = kctx s /\ (routine X = None <-> F = 0%nat) /\
+  fr s0 X /\ kctx X = kctx (norm s) /\ (routine X = None <-> F = 0%nat) /\
   (spawnB (length (insts s)) X \/ freshC (length (insts s)) X) /\
   (forall j, fst (snd (set_routine_locked repaired s0 F arg)) = Some j -> S j = length (insts s)).
 Proof.
-  intros HI A1 A2 A3 A4 A5. assert (HI0 : Inv s0) by (now apply (Inv_ext s)).
+  intros HI A1 A2 A3 A4 A5 A6. assert (HI0 : Inv s0) by (now apply (Inv_ext s)).
   destruct (set_routine_locked_cls s0 F arg HI0) as (K1 & K2 & K3 & K4). rewrite A1 in K3, K4.
-  split; [apply fr_set_routine_locked|]. split; [congruence|]. split; [exact K2|]. split; [|exact K4].
+  split; [apply fr_set_routine_locked|]. split; [rewrite K1; unfold norm, root_dead; rewrite A5, A6; destruct (existsb _ _); [reflexivity | exact A5]|].
+  split; [exact K2|]. split; [|exact K4].
   destruct K3 as [[_ B] | C]; auto.
 Qed.
 
@@ -690,10 +725,10 @@ Proof.
   assert (E1 : s1 = fst (set_routine_locked repaired (hs h) (n2n f) f)) by (now rewrite E).
   assert (E2 : w = fst (snd (set_routine_locked repaired (hs h) (n2n f) f))) by (now rewrite E). clear E.
   pose proof HA as (HI & _).
-  destruct (epoch_facts (hs h) (hs h) (n2n f) f HI eq_refl eq_refl eq_refl eq_refl eq_refl) as (F1 & F2 & F3 & F4 & F5).
+  destruct (epoch_facts (hs h) (hs h) (n2n f) f HI eq_refl eq_refl eq_refl eq_refl eq_refl eq_refl) as (F1 & F2 & F3 & F4 & F5).
   rewrite <- E1 in F1, F2, F3, F4. rewrite <- E2 in F5.
-  pose proof F1 as ((A1 & A2 & A3 & A4 & A5 & A6 & A7 & A8 & A9) & _).
-  apply (epoch_step_ok m h [2; f] (hs h) s1 (n2n f) w); try assumption; try reflexivity; auto.
+  pose proof F1 as ((A1 & A2 & A3 & A4 & A5 & A6 & A7 & A8 & A9 & A10) & _).
+  apply (epoch_step_ok m h [2; f] (hs h) s1 (n2n f) w); try assumption; try reflexivity; auto; try (repeat split; reflexivity).
   - unfold x_st. now rewrite A9, (R_st _ _ HR).
   - unfold x_sfn. now rewrite A8, (R_sfn _ _ HR).
   - unfold x_hasr. rewrite (R_sv _ _ HR), Hsv. unfold has_routine, nz.
@@ -709,13 +744,13 @@ Lemma ev_setsr m h f s1 w reset running : R m h -> AllInv (hs h) -> AllInv (sett
 Proof.
   intros HR HA HA' Hsv E. destruct (update_sr_cases _ _ _ _ _ E) as (F & E1 & E2). clear E.
   pose proof HA as (HI & _).
-  destruct (epoch_facts (hs h) (set_sfn (hs h) (n2n f)) F (sval (set_sfn (hs h) (n2n f))) HI eq_refl eq_refl eq_refl eq_refl eq_refl) as (F1 & F2 & F3 & F4 & F5).
+  destruct (epoch_facts (hs h) (set_sfn (hs h) (n2n f)) F (sval (set_sfn (hs h) (n2n f))) HI eq_refl eq_refl eq_refl eq_refl eq_refl eq_refl) as (F1 & F2 & F3 & F4 & F5).
   rewrite <- E1 in F1, F2, F3, F4. rewrite <- E2 in F5.
-  pose proof F1 as ((A1 & A2 & A3 & A4 & A5 & A6 & A7 & A8 & A9) & _).
+  pose proof F1 as ((A1 & A2 & A3 & A4 & A5 & A6 & A7 & A8 & A9 & A10) & _).
   assert (C1 : x_st m [6; f] (pobs_of [wr_code w; nb reset; nb running] (hmid h s1 (hch h ++ [w]) (hexit h))) = sval s1).
   { unfold x_st. rewrite A9. apply (R_st _ _ HR). }
   assert (C2 : x_sfn m [6; f] = N.of_nat (sfn s1)) by (unfold x_sfn; rewrite A8; cbn [sfn set_sfn]; now rewrite of_nat_n2n).
-  apply (epoch_step_ok m h [6; f] (set_sfn (hs h) (n2n f)) s1 F w); try assumption; try reflexivity; auto.
+  apply (epoch_step_ok m h [6; f] (set_sfn (hs h) (n2n f)) s1 F w); try assumption; try reflexivity; auto; try (repeat split; reflexivity).
   unfold x_hasr. rewrite (R_sv _ _ HR), Hsv, C1, C2. apply hasr_sv_new; [exact HA'|]. now rewrite A1.
 Qed.
 
@@ -725,8 +760,10 @@ Lemma state_changed_ok m h e v F rets :
   let s1 := do_bcast (fst (set_routine_locked repaired (set_sval (hs h) v) F v)) in
   let w := fst (snd (set_routine_locked repaired (set_sval (hs h) v) F v)) in
   AllInv (settle s1) ->
-  x_is_book e = false -> x_pend m e (pobs_of rets (hmid h s1 (hch h ++ [w]) (hexit h))) = m_pend m -> x_ctx m e = m_ctx m ->
-  x_epoch e (pobs_of rets (hmid h s1 (hch h ++ [w]) (hexit h))) = true -> x_clear_ctx e = false ->
+  x_is_book e = false -> x_pend m e (pobs_of rets (hmid h s1 (hch h ++ [w]) (hexit h))) = m_pend m ->
+  x_ctx m e (pobs_of rets (hmid h s1 (hch h ++ [w]) (hexit h))) = x_ctx0 m e (pobs_of rets (hmid h s1 (hch h ++ [w]) (hexit h))) ->
+  match e with [18; c] => c :: m_dead m | _ => m_dead m end = m_dead m ->
+  x_epoch e (pobs_of rets (hmid h s1 (hch h ++ [w]) (hexit h))) = true -> x_clear_ctx m e = false ->
   x_chans m e = (m_chans m ++ [m_ninst m])%list ->
   x_f14e m e (pobs_of rets (hmid h s1 (hch h ++ [w]) (hexit h))) = fails 14 5 (x_nodelta (pobs_of rets (hmid h s1 (hch h ++ [w]) (hexit h)))) ->
   x_clock m e = m_clock m -> x_wcanc m e = m_wcanc m -> x_api e = true ->
@@ -737,14 +774,14 @@ Lemma state_changed_ok m h e v F rets :
     (if m_sv m then nz (x_sfn m e) && nz (x_st m e (pobs_of rets (hmid h s1 (hch h ++ [w]) (hexit h)))) else m_hasr m) ->
   step_ok m h e s1 (hch h ++ [w]) rets (hexit h).
 Proof.
-  intros HR HA Hsv s1 w HA' X1 X2 X3 X7 X8 X9 X10 X11 X12 X13 X14 X15 Xst Xsfn Xhasr.
+  intros HR HA Hsv s1 w HA' X1 X2 X3 XD X7 X8 X9 X10 X11 X12 X13 X14 X15 Xst Xsfn Xhasr.
   pose proof HA as (HI & _).
-  destruct (epoch_facts (hs h) (set_sval (hs h) v) F v HI eq_refl eq_refl eq_refl eq_refl eq_refl) as (F1 & F2 & F3 & F4 & F5).
+  destruct (epoch_facts (hs h) (set_sval (hs h) v) F v HI eq_refl eq_refl eq_refl eq_refl eq_refl eq_refl) as (F1 & F2 & F3 & F4 & F5).
   assert (F1' : fr (set_sval (hs h) v) s1) by (eapply fr_trans; [exact F1 | apply fr_do_bcast]).
-  pose proof F1' as ((A1 & A2 & A3 & A4 & A5 & A6 & A7 & A8 & A9) & _).
+  pose proof F1' as ((A1 & A2 & A3 & A4 & A5 & A6 & A7 & A8 & A9 & A10) & _).
   assert (C1 : x_st m e (pobs_of rets (hmid h s1 (hch h ++ [w]) (hexit h))) = sval s1) by (rewrite Xst, A9; reflexivity).
   assert (C2 : x_sfn m e = N.of_nat (sfn s1)) by (rewrite Xsfn, A8; apply (R_sfn _ _ HR)).
-  apply (epoch_step_ok m h e (set_sval (hs h) v) s1 F w); try assumption; try reflexivity; auto.
+  apply (epoch_step_ok m h e (set_sval (hs h) v) s1 F w); try assumption; try reflexivity; auto; try (repeat split; reflexivity).
   rewrite Xhasr, (R_sv _ _ HR), Hsv, C1, C2. apply hasr_sv_new; [exact HA'|]. now rewrite A1.
 Qed.
 
@@ -780,6 +817,7 @@ Lemma ev_leave m h i : R m h -> AllInv (hs h) -> AllInv (settle (hs h)) ->
 Proof.
   intros HR HA HA'. apply light_step_ok_gen; try assumption; try reflexivity.
   - intros j a b Hin. unfold x_pend in Hin. apply filter_In in Hin. apply Hin.
+  - apply (R_ctx _ _ HR).
   - intros Hn. unfold x_f14e. rewrite Hn. cbn [orb andb negb].
     destruct (x_pend_entry m [17; i]) as [[[j reported] must]|] eqn:Ef; [|reflexivity].
     unfold x_pend_entry in Ef. apply find_some in Ef. destruct Ef as [Hin _].
@@ -787,5 +825,38 @@ Proof.
   - left. split; reflexivity.
   - apply (R_clock _ _ HR).
   - apply (R_wcanc _ _ HR).
-  - auto.
+  - intros d Hd _. apply (R_pending _ _ HR d Hd).
+Qed.
+
+(* ---- the owner of a root context cancels it ---- *)
+Lemma ev_cancelroot m h c : R m h -> AllInv (hs h) -> AllInv (settle (cancel_root (hs h) (n2n c))) ->
+  step_ok m h [18; c] (cancel_root (hs h) (n2n c)) (hch h) [] (hexit h).
+Proof.
+  intros HR HA HA'.
+  assert (L : length (insts (cancel_root (hs h) (n2n c))) = length (insts (hs h))) by (unfold cancel_root; cbn [insts set_insts]; apply map_length).
+  assert (K : keepA (hs h) (cancel_root (hs h) (n2n c))) by (apply keepA_ext; [exact L | reflexivity | reflexivity]).
+  assert (Hn : x_n (pobs_of [] (hmid h (cancel_root (hs h) (n2n c)) (hch h) (hexit h))) = length (insts (hs h)))
+    by (rewrite x_n_obs, (q_ilen _ _ (quiet_settle _)); exact L).
+  apply nb_step_ok; try assumption; try reflexivity.
+  - apply (R_pend _ _ HR).
+  - apply (R_ctx _ _ HR).
+  - apply (R_st _ _ HR).
+  - apply (R_sfn _ _ HR).
+  - apply (R_clock _ _ HR).
+  - change (x_hasr m [18; c] ?P) with (if m_sv m then nz (m_sfn m) && nz (m_st m) else m_hasr m). apply (hasr_same _ _ HR HA).
+  - left. split; [exact K | reflexivity].
+  - discriminate.
+  - unfold cancel_root. cbn [dead set_insts set_dead map]. rewrite of_nat_n2n. f_equal. apply (R_dead _ _ HR).
+  - intros i x Hx. unfold cancel_root. cbn [insts set_insts]. rewrite nth_error_map, Hx. cbn [option_map]. eexists. split; [reflexivity|].
+    destruct (Nat.eqb (iroot x) (n2n c)); reflexivity.
+  - intros i x1 Hx1. destruct (cancel_root_nth _ _ _ _ Hx1) as (x & Hx & _ & _ & _ & Hp & _). rewrite Hp.
+    change (x_out m [18; c] ?P) with (x_out' m P). unfold x_out'. rewrite nth_pad. apply (R_out _ _ HR i x Hx).
+  - change (x_out m [18; c] ?P) with (x_out' m P). unfold x_out'. rewrite Hn, L. apply out_pad_length. rewrite (R_outl _ _ HR). lia.
+  - left. split; reflexivity.
+  - apply (R_wcanc _ _ HR).
+  - intros d Hd _. apply (pending_ok_same (hs h)); try reflexivity. apply (R_pending _ _ HR d Hd).
+  - intros _. split; [reflexivity|]. intros i x1 Hx1. destruct (cancel_root_nth _ _ _ _ Hx1) as (x & Hx & Hr & _). eauto.
+  - intros Hnd. unfold x_f14e. rewrite Hnd. reflexivity.
+  - intros _ _ _. exact L.
+  - intros _ _ _ _ _. exact L.
 Qed.
